@@ -292,6 +292,14 @@ def run(chk):
                     "QVBoxLayout { spacing: %s }", "QGridLayout { QLabel { QLayout.row: %s } }", "QLabel { buddy: %s }", "QComboBox { model: %s }", "QLabel { geometry { x: %s; y: chk.checked ? 1 : 2 } }",
                     "QTableView { horizontalHeader.visible: %s }", "QPushButton { onClicked: %s }", "QCheckBox { onToggled: %s }", "QLabel { id: %s }"):
             inputs.append(("function value", HEAD + "QWidget { QCheckBox { id: chk } %s }\n" % (pos % f), True))
+    # integer constants at the edges of the 64-bit range under every operator (folded at translation time): diagnosed or folded, never a crash
+    EDGE = ["(-9223372036854775807 - 1)", "9223372036854775807", "~0x7fffffffffffffff", "-1", "(0 - 1)", "0", "1", "2", "63", "64", "-64", "4294967296"]
+    for op in ("+", "-", "*", "/", "%", "<<", ">>", "&", "|", "^", "<", "=="):
+        for a in EDGE:
+            for b in EDGE:
+                inputs.append(("integer edge", HEAD + "QWidget { QCheckBox { id: chk } QSpinBox { value: %s %s %s; onValueChanged: { let code = %s %s %s; } } }\n" % (a, op, b, a, op, b), True))
+    for a in EDGE:
+        inputs.append(("integer edge", HEAD + "QWidget { QCheckBox { id: chk } QSpinBox { value: -%s; minimum: ~%s; maximum: +%s; singleStep: (%s) as int } }\n" % (a, a, a, a), True))
     # zero / negative / huge layout counts and indices; object names outside ASCII on objects that need support code
     for cnt in ("0", "-1", "65536", "65537", "4294967296", "1.5", "\"2\"", "true", "chk.checked ? 1 : 2"):
         for flow in ("columns: %s", "flow: QGridLayout.TopToBottom; rows: %s", "rows: %s", "flow: QGridLayout.TopToBottom; columns: %s"):
